@@ -192,6 +192,7 @@ def palette():
     K += [_simple("str16-ascii", "String", S(Fixed(16), "US-ASCII"), 16, core=True),
           _simple("str12-utf8", "String", S(Fixed(12), "UTF-8"), 12),
           _simple("str24-term00-utf8", "String", S(Fixed(24), "UTF-8", None, "00"), 24, core=True),
+          _simple("str40-cp1252", "String", S(Fixed(40), "Windows-1252"), 40),
           _simple("str40-term(e-acute, 2 bytes)-utf8", "String", S(Fixed(40), "UTF-8", None, "c3a9"), 40),
           _simple("str32-term0058-utf16be", "String", S(Fixed(32), "UTF-16BE", None, "0058"), 32),
           _simple("str24-lead8-ascii", "String", S(Fixed(24), "US-ASCII", None, None, 8), 24, core=True),
